@@ -12,6 +12,9 @@ import Pycdlib.Model.Pack
 import Pycdlib.Model.Layout
 import Pycdlib.Model.Checksum
 import Pycdlib.Model.Codec
+import Pycdlib.Model.Susp
+import Pycdlib.Model.Unicode
+import Pycdlib.Model.Udf
 namespace Pycdlib
 
 def parseCps (s : String) : Option (List Nat) :=
@@ -78,6 +81,38 @@ def dispatchPure (toks : List String) : Option String :=
   | ["encptr", be, ext, par, ident] => do
     let r : PTRF := { extent := ← ext.toNat?, parent := ← par.toNat?, ident := ← ofHex ident }
     pure (toHex (encPTR (be = "1") r))
+  | ["rrnew", first, ver, name, target, cl, re, pl, cur] => do
+    let v ← if ver = "1.09" then some Susp.Ver.v109 else if ver = "1.10" then some .v110 else if ver = "1.12" then some .v112 else none
+    let nm ← ofHex name
+    let tg ← if target = "none" then some none else (ofHex target).map some
+    let showEnt : Susp.Ent → String := fun e => match e with
+      | .fixed sg l => s!"{sg}:{l}"
+      | .nm c p => s!"NM:{if c then 1 else 0}:{hexs p}"
+      | .sl c cs => s!"SL:{if c then 1 else 0}:" ++ "+".intercalate (cs.map fun k => s!"{k.flags}.{hexs k.data}")
+    match Susp.rrNew (first = "1") v nm tg (cl = "1") (re = "1") (pl = "1") (← cur.toNat?) with
+    | none => pure "internalError"
+    | some r =>
+      let nmAll := Susp.nmName (r.dr ++ r.ce)
+      let tgt := Susp.slTarget (Susp.allComps (r.dr ++ r.ce))
+      pure (s!"{r.drLen} {if r.hasCE then 1 else 0} {r.ceLen} | " ++ " ".intercalate (r.dr.map showEnt) ++ " | " ++
+        " ".intercalate (r.ce.map showEnt) ++ " | " ++ hexs nmAll ++ " " ++ hexs tgt)
+  | ["ceadd", bs, lens] => do
+    let bs ← bs.toNat?
+    let ls ← parseCps lens
+    let (_, out) := ls.foldl (fun (st : List Susp.Block × List String) l =>
+      let (added, i, off, blocks) := Susp.addCe bs st.1 l
+      (blocks, st.2 ++ [s!"{if added then 1 else 0}:{i}:{off}"])) ([], [])
+    pure (" ".intercalate out)
+  | ["utf16", cps] => do
+    let l ← parseCps cps
+    pure (hexs (utf16be l) ++ " " ++ hexs (utf8s l) ++ " " ++ hexs (Reader.utf16beToUtf8 (utf16be l)))
+  | ["udftag", ident, ver, serial, loc, body] => do
+    let b ← ofHex body
+    let t := Udf.tagBytes (← ident.toNat?) (← ver.toNat?) (← serial.toNat?) (← loc.toNat?) (b.map (·.toNat))
+    pure (toHex (t.map fun n => UInt8.ofNat n) ++ " " ++ toString (Udf.tagValid t (b.map (·.toNat)) (← ident.toNat?) (← loc.toNat?)))
+  | ["fidassign", lens] => do
+    let ls ← parseCps lens
+    pure (" ".intercalate ((Udf.fidAssign 2048 0 0 ls).map toString) ++ " | " ++ toString (Udf.fidSectors ls))
   | ["crc16", hx] => do let b ← ofHex hx; pure (toString (crc16 (b.map (·.toNat))))
   | ["crc32", hx] => do let b ← ofHex hx; pure (toString (crc32 (b.map (·.toNat))))
   | ["eltcsum", hx] => do let b ← ofHex hx; pure (toString (elToritoChecksum (b.map (·.toNat))))
